@@ -166,6 +166,7 @@ def collide_cases(ctx, opts, tag):
 
 
 BIGFILE = [('dos33', 'do:5.25in'), ('prodos', 'po:5.25in'), ('prodos', 'po:3.5in-ds'), ('pascal', 'po:5.25in'), ('cpm2', 'do:5.25in'), ('cpm2', 'imd:8in'),
+           ('cpm2', 'imd:8in-trs80'), ('cpm2', 'td0:8in-nabu'), ('cpm2', 'imd:5.25in-kay4'),      # more than 255 blocks: two-byte block pointers
            ('fat', 'img:5.25in-ibm-dsdd9'), ('fat', 'img:3.5in-ibm-720'), ('fat', 'img:3.5in-ibm-1440'), ('fat', 'imd:5.25in-ibm-dsdd9')]
 
 
